@@ -597,6 +597,14 @@ func genJob(r *RNG, paths []PathSpec, small bool, salt ...string) *Recipe {
 		}
 		rec.Ops = append(rec.Ops, Op{K: "render"})
 	}
+	if paths == nil && len(g.paths) > 0 && r.Chance(0.15) {
+		// a statement that refers to a package AND cannot be formatted, rendered without a
+		// File: whatever the failed call registered must be gone with it (package state is
+		// watched by O2; a later File-less render must name its packages as if alone)
+		rec.Frags = append(rec.Frags, &Node{K: "call", N: []*Node{g.qual(-1), {K: "bad"}}})
+		rec.Ops = append(rec.Ops, Op{K: r.Pick([]string{"render_frag_nofile", "render_group_nofile"}), I: len(rec.Frags) - 1},
+			Op{K: "render_frag_nofile", I: r.Intn(len(rec.Frags))})
+	}
 	for i := r.Intn(3); i > 0; i-- {
 		switch {
 		case len(rec.Frags) > 0 && r.Chance(0.4):
